@@ -22,6 +22,21 @@ CLAIMED = {
  "C06": ("explicit-state search over histories x all cut points (times, version ids) x later extensions; metamorphic oracle against the truncated history on the real processor plus the reference model",
          "All histories of <=3 (thorough 4) operations over a 14-operation alphabet on 5 non-monotone coordinates, published and unpublished, x every cut time from pre-epoch to maxTime+1 x every version id (and an unknown one) x 5 later-anchored extensions.",
          TB, "DESIGN.md §3 C06"),
+ "C07": ("bounded-exhaustive input enumeration (complete families over an alphabet of tricky strings/numbers, all re-serializations, doubles by bit pattern) differential against an independent RFC 8785 reference",
+         "~38k JSON texts in complete families (every <=3-subset of 25 tricky keys in every order; every escape spelling of every atom and ordered pair; number spellings; all trees depth<=2 (thorough 3); whitespace at every position; every proper prefix, duplicate names, all two-character escapes, malformed \\u, all lone-surrogate shapes, raw control bytes, trailing bytes) plus ~180k (thorough ~11M) doubles by bit pattern and decimal literals; byte equality with ref/jcs, fixed point, value preservation, and rejection agreement.",
+         TB, "DESIGN.md §3 C07"),
+ "C08": ("bounded-exhaustive re-serialization and single-character/single-member alteration enumeration on the real parser, hashing and DocumentHandler",
+         "120 create requests x 36 re-serializations through the real parser (same suffix, accepted); commitments of 15 keys x nonce x algorithm against the independent double hash; IsValidModelMultihash against ~17k candidate strings per model (every single-character substitution, truncation, CR/LF, wrong code) accepted exactly when correct; long-form DIDs through a real DocumentHandler: every position of the initial-state segment substituted (quick: 16 of 63 alternatives per position, thorough all), every suffix character, 16 member alterations, 35 non-canonical encodings, swapped states.",
+         TB, "DESIGN.md §3 C08"),
+ "C09": ("bounded-exhaustive alteration enumeration (every bit of payload/signature, every header byte, every foreign key, signature classes, malformed grammar) on the real JWS verifier",
+         "45 genuine JWS (5 key types x 3 header sets x 3 payloads) built independently and by the library's signers verify; every single-bit flip of payload and signature, every value-changing header byte substitution (quick 7 substitutes, thorough 255), 9 foreign keys, 14 signature classes are rejected, (r,n-s) verifies; 230 malformed compact strings, 18 header objects and ~30 malformed JWKs per key type give an error, never a panic.",
+         TB, "DESIGN.md §3 C09"),
+ "C10": ("bounded-exhaustive boundary / enabled-list / field-mutation enumeration on the real parser under independently varied configurations, against an independent rule predicate",
+         "14 valid seeds; each limit at measured-1/0/+1 with all other parameters generous and distinct; every hash field individually under SHA2-512; every enabled-list entry removed in turn; 10 unrelated parameters toggled; every JSON path of request, signed data and header removed / replaced by 11 values (re-signed) with accepted => rule predicate; all prefixes and mutations through Parse, ParseOperation (both modes), GetRevealValue, GetCommitment, and a DID grammar through ParseDID for panic freedom.",
+         TB, "DESIGN.md §3 C10"),
+ "C11": ("bounded-exhaustive product of client-builder inputs executed through builder -> real parser -> real processor, compared with the reference document model",
+         "720 configurations (5 key types x 2 hash algorithms x opaque/patches x 3 origins x 3 windows x nonce x kid) x 4 builders x 5 anchored scenarios.",
+         TB, "DESIGN.md §3 C11"),
  "C12": ("bounded-exhaustive pairing enumeration at intake; explicit-state search over commitment-cycle histories on the real processor vs reference",
          "Every (revealed key, next commitment) pairing x both hash algorithms (also mixed) x 5 key types for update/recover and every (update, recovery) commitment pairing for create/recover through the real parser; every forward chain of length <=4 (update and recovery chains) plus 1-2 cycle-closing operations (self loops, cycles of length 2..4) at every anchoring position, with and without the legitimate continuation.",
          TB, "DESIGN.md §3 C12"),
